@@ -169,6 +169,9 @@ def native_locality_large(seed, tier):
     x = np.cumsum(2.0 ** np.arange(12))[:, None]
     comb = np.vstack([x, x + 0.1, x + 0.2])                                # Kauri grows a comb of depth 8 on it
     comb_q = np.vstack([comb, comb + 0.05, rs.uniform(0, 5000, size=(1100, 1))])
+    t0_ = 1.7e9 + np.sort(np.concatenate([k * 3600.0 + 60.0 * np.arange(8) for k in range(4)]))
+    Xts = np.column_stack([t0_, rs.normal(size=len(t0_))])
+    Xts_q = np.vstack([Xts, Xts + np.array([30.0, 0.0]), Xts + np.array([1.0, 0.0])])
     X6 = rs.normal(size=(40, 6))
     big6 = rs.normal(size=(700, 6)) * 1.5
     cases = [
@@ -181,6 +184,9 @@ def native_locality_large(seed, tier):
         ("Kauri, 2600 rows", lambda: Kauri(max_clusters=4, random_state=seed), Xtr, big),
         ("Kauri(comb data: deep unbalanced tree), 1136 rows", lambda: Kauri(max_clusters=12, kernel="linear", random_state=seed), comb, comb_q),
         ("Kauri(24 leaves), 2600 rows", lambda: Kauri(max_clusters=24, max_leaves=24, random_state=seed), Xtr, big),
+        # large magnitudes with small gaps (time stamps in seconds around 1.7e9, sessions one minute apart): single precision cannot tell
+        # a sample from the threshold next to it
+        ("Kauri(time stamps around 1.7e9)", lambda: Kauri(max_clusters=4, kernel="linear", random_state=seed), Xts, Xts_q),
     ]
     for name, f, Xfit, A in cases:
         why = []
